@@ -298,6 +298,85 @@ def fortran_line_limit(ctx, only=None):
     return nfiles
 
 
+LONG_LIB = """\
+library: Linelen
+cxx_header: linelen.hpp
+options:
+  wrap_python: true
+  wrap_lua: false
+  PY_array_arg: list
+declarations:
+- decl: double accumulate_weighted_sum(const double *input_value_array +rank(1), int number_of_values +implied(size(input_value_array)), double scaling_factor_one, double scaling_factor_two, const std::string &description_of_the_run)
+- decl: void update_coordinates_in_place(double *coordinate_array_x +rank(1)+intent(inout), double *coordinate_array_y +rank(1)+intent(inout), int number_of_points +implied(size(coordinate_array_x)), bool periodic_boundary_flag)
+- decl: const std::string &lookup_name_of_component(int component_index_value, const std::string &fallback_component_name)
+"""
+
+
+def gen_with(args):
+    workdir, text, extra = args
+    from .. import gen
+    r, tree = gen.gen_tree(workdir, text, extra)
+    return r.status, tree
+
+
+def line_length_options(ctx):
+    """C_line_length and F_line_length are independent: each governs only its own languages' files."""
+    from .. import libs
+    wd = ctx.subdir("ll")
+    descs = {"long": LONG_LIB, "small": libs.SMALL_CXX, "csmall": libs.SMALL_C}
+    combos = [(72, 72), (1000, 72), (40, 72), (72, 40), (72, 100), (1000, 40)]
+    jobs, meta = [], []
+    for dn, text in descs.items():
+        for cl, fl in combos:
+            jobs.append((os.path.join(wd, "%s-%d-%d" % (dn, cl, fl)), text, ["--option", "C_line_length=%d" % cl, "--option", "F_line_length=%d" % fl]))
+            meta.append((dn, cl, fl))
+    res = isolate.pmap(gen_with, jobs, ctx.workers)
+    trees = {}
+    for (dn, cl, fl), (st, tree) in zip(meta, res):
+        if st != "ok":
+            ctx.violation("linelen generation %s C=%d F=%d" % (dn, cl, fl), "generation fails with C_line_length=%d F_line_length=%d on %s" % (cl, fl, dn), {"kind": "linelen"})
+            continue
+        trees[(dn, cl, fl)] = tree
+        for fn, data in tree.items():
+            if fn.endswith((".f", ".f90", ".F")):
+                for no, ln in enumerate(data.decode().split("\n"), 1):
+                    if ln.lstrip().startswith("!") or ln.startswith("#"):
+                        continue
+                    if len(ln) > 132:
+                        ctx.violation("fortran-line>132 %s C=%d F=%d" % (dn, cl, fl), "%s with C_line_length=%d F_line_length=%d: %s line %d has %d columns: %s" % (
+                            dn, cl, fl, fn, no, len(ln), ln[:160]), {"kind": "linelen", "desc": dn, "C": cl, "F": fl})
+                        break
+    isf = lambda fn: fn.endswith((".f", ".f90", ".F"))
+    n = 0
+    for dn in descs:
+        for (c1, f1), (c2, f2) in itertools.combinations(combos, 2):
+            a, b = trees.get((dn, c1, f1)), trees.get((dn, c2, f2))
+            if a is None or b is None:
+                continue
+            n += 1
+            if f1 == f2 and c1 != c2:
+                da = {k: v for k, v in a.items() if isf(k)}
+                db = {k: v for k, v in b.items() if isf(k)}
+                if da != db:
+                    ctx.violation("linelen fortran-depends-on-C_line_length %s" % dn, "%s: the Fortran files change when only C_line_length changes (%d -> %d, F_line_length=%d):\n%s" % (
+                        dn, c1, c2, f1, "\n".join(isolate.diff_trees(da, db, 1))), {"kind": "linelen", "desc": dn})
+            if c1 == c2 and f1 != f2:
+                da = {k: v for k, v in a.items() if not isf(k) and not k.endswith(".yaml")}
+                db = {k: v for k, v in b.items() if not isf(k) and not k.endswith(".yaml")}
+                if da != db:
+                    ctx.violation("linelen c-depends-on-F_line_length %s" % dn, "%s: C/C++/Python files change when only F_line_length changes (%d -> %d, C_line_length=%d):\n%s" % (
+                        dn, f1, f2, c1, "\n".join(isolate.diff_trees(da, db, 1))), {"kind": "linelen", "desc": dn})
+        # the options act: the long library wraps differently at 40 and at 100 columns
+    for opt, k1, k2 in (("F_line_length", ("long", 72, 40), ("long", 72, 100)), ("C_line_length", ("long", 40, 72), ("long", 1000, 72))):
+        a, b = trees.get(k1), trees.get(k2)
+        if a is not None and b is not None:
+            sel = (lambda k: isf(k)) if opt == "F_line_length" else (lambda k: k.endswith((".cpp", ".h")))
+            if {k: v for k, v in a.items() if sel(k)} == {k: v for k, v in b.items() if sel(k)}:
+                ctx.violation("linelen %s-ignored" % opt, "the long-name library is wrapped identically under two values of %s: the option is not honoured" % opt, {"kind": "linelen"})
+    ctx.part("line_length_options", descriptions=list(descs), combinations=combos, pairs_compared=n)
+    ctx.count(states=len(res), transitions=len(res) + n, validated=len(res) + n)
+
+
 def run(ctx):
     quick = ctx.tier == "quick"
     W = ctx.workers
@@ -340,6 +419,7 @@ def run(ctx):
     ctx.sample({"directive_lines": ["+if (a) {", "x = 1;", "-}"], "indent": 0})
     # --- generated Fortran files
     fortran_line_limit(ctx)
+    line_length_options(ctx)
     ctx.cov["rule"] = (
         "every logical line over {letter, blank, TAB, FF} (+ leading CR) up to the length bound x every "
         "line length x indent x marker, executed on the real write_continue; every directive line (sequence) "
